@@ -207,7 +207,7 @@ PROPS = {
              trusted=["math/big Exp/SetBytes/Bytes (Scalar.Pow goes through math/big; modelled as exact modular powering)"]),
     "C07": P("proof", [("scenc", 2000, 60000), ("sfenc", 1000, 40000)], ["SC.*", "S.*"], rule=RULE,
              trusted=["encoding/hex, encoding/binary (modelled)"]),
-    "C08": P("exploration", [("h2c", 60, 3000), ("expand", 300, 20000), ("chosenu", 80, 4000), ("fh2f", 500, 20000)],
+    "C08": P("proof", [("h2c", 60, 3000), ("expand", 300, 20000), ("chosenu", 80, 4000), ("fh2f", 500, 20000)],
              ["H2C.h2g", "H2C.e2g", "H2C.h2gu", "H2C.e2gu", "XMD.*", "F.h2f"], rule=RULE,
              trusted=["crypto/sha256 (a parameter H in the theorems; the Lean SHA-256 used by the driver is itself compared with crypto/sha256 by XMD.sha)"]),
     "C09": P("proof", [("h2s", 100, 5000), ("sfh2f", 1500, 60000), ("expand", 200, 10000), ("chosenu", 40, 2000)],
